@@ -207,7 +207,7 @@ def run(ctx, report):
         r_ref = rules["R07-reference"]
         m, r = mr
         total = 0
-        boundary, rest = REF.probes(m, ctx.seed, n_random=n_random)
+        boundary, rest = REF.probes(m, ctx.seed, n_random=n_random, pairs=ctx.tier == "thorough")
         ps = boundary + rest
         bad = None
         for a, want in ps:
@@ -240,7 +240,7 @@ def run(ctx, report):
                            where_)
 
     report.not_decided += [
-        "the special rules of methods 08, 16, 23, 24, 25, 26, 61, 63, 68, 76, 88, 91, 99 outside the probe family of R07-reference (every position x digit made reference-valid, the rule boundaries, seeded fills); "
+        "the special rules of methods 08, 16, 23, 24, 25, 26, 61, 63, 68, 76, 88, 91, 99 outside the probe family of R07-reference (every position x digit made reference-valid, the rule boundaries, seeded fills; thorough tier: every pair of positions x all digit values); "
         "the template part (parameters and hook tables) is decided for all inputs",
         "that the reference table equals the current Bundesbank publication (typed from it; it cannot be re-read in the sandbox)",
     ]
@@ -261,8 +261,8 @@ def _check_reader(ctx, report, rule, by_name):
     if f is None or bank is None:
         raise AnalysisError("anchor vanished: BBAN.validate_national_checksum / BBAN.bank")
     reps = {}
-    for e in ctx.registry.banks:
-        if e.get("country_code") == "DE" and e.get("checksum_algo") is not None:
+    for e in ctx.facts.tree_banks():   # the bank list as the tree's own loader composes it (see facts.tree_banks)
+        if isinstance(e, dict) and e.get("country_code") == "DE" and e.get("checksum_algo") is not None:
             reps.setdefault(e["checksum_algo"], e)
     if not reps:
         raise AnalysisError("no German bank entry carries a method")
